@@ -11,7 +11,7 @@ for d in seeded/${1:-C}*/; do
   id=$(python3 -c "import json;print(json.load(open('$d/meta.json'))['breaks_property'])")
   WT=$(mktemp -d /tmp/sregwt-XXXXXX); rmdir $WT
   git -C /repo worktree add -q $WT HEAD
-  if git -C $WT apply $d/patch.diff 2>/dev/null; then
+  if git -C $WT apply /verif/$d/patch.diff 2>/dev/null; then
     VERIF_REPO=$WT ./check $id > /tmp/sreg_$n.log 2>&1; rc=$?
     echo "$n $id exit=$rc $(grep -c '^VIOLATION' /tmp/sreg_$n.log) VIOLATION lines" | tee -a $LOG
   else
